@@ -183,6 +183,7 @@ def r04_6(ctx):
         t = expr_str(b["body"], names={})
         if "Html(" in t or "Text(" in t:
             t2 = re.sub(r"'You have to use JSX Expression inside your `v-\w+`\.'", "'MSG'", t)
+            t2 = re.sub(r"'[^']*\bv-(html|text)\b[^']*'", "'MSG'", t2)       # the message may be assembled from the directive's name
             t2 = t2.replace("Html(", "X(").replace("Text(", "X(")
             texts[b["name"]] = t2
             r.saw(b["path"])
